@@ -7,7 +7,7 @@ variables of the packages this property's code lives in, the functions (other th
 assign to them or call methods on them, and the fields of the property's struct types. The model is
 a pure function of the arguments and of these fields; a new variable, writer or field is state the
 model does not know of. -/
-def stateC16 : List (String × String) := [("globals:scale", ""), ("globalwrites:scale", ""), ("fields:scale.Linear", "Min:float64 Max:float64 Base:int Clamp:bool"), ("fields:scale.Log", "private:struct{} Min:float64 Max:float64 Base:int Clamp:bool"), ("fields:scale.QQ", "Src:Quantitative Dest:Quantitative")]
+def stateC16 : List (String × String) := [("globals:scale", ""), ("globalwrites:scale", ""), ("fields:scale.Linear", "Min:float64 Max:float64 Base:int Clamp:bool"), ("fields:scale.Log", "private:struct{} Min:float64 Max:float64 Base:int Clamp:bool"), ("fields:scale.QQ", "Src:Quantitative Dest:Quantitative"), ("funcs:scale", "n=30 fnv64a=1f1f5241e57ecbaa")]
 
 /-- the source has exactly the package-level variables, writers and struct fields the model accounts for -/
 theorem state_C16 : holdsAll stateC16 = true := by decide +kernel
